@@ -501,6 +501,20 @@ fn text_spellings(v: &Val, canon_text: &str, canon: &[bool]) -> Vec<(String, Str
         let t = canon_text.replacen(": ", ": 1 + ", 1);
         out.push(("expr-in-field".into(), t, Expect::May(vec![])));
     }
+    // an array of consecutive non-negative numbers written as a range, with and without suffix
+    if let Val::Arr(es) = v {
+        let nums: Vec<(i128, IntTy)> = es.iter().filter_map(|e| if let Val::Int(x, t) = e { Some((*x, *t)) } else { None }).collect();
+        if !nums.is_empty() && nums.len() == es.len() && nums[0].0 >= 0 && nums.windows(2).all(|w| w[1].0 == w[0].0 + 1) {
+            let (lo, t) = nums[0];
+            let hi = lo + nums.len() as i128;
+            if hi <= u64::MAX as i128 {
+                out.push(("range-text".into(), format!("{lo}..{hi}"), Expect::May(canon.to_vec())));
+                if !t.signed() {
+                    out.push(("range-text-suffixed".into(), format!("{lo}{}..{hi}{}", t.name(), t.name()), Expect::May(canon.to_vec())));
+                }
+            }
+        }
+    }
     // an array repeat whose size is the name of a constant is no literal
     if let Val::Arr(es) = v {
         if let Some(first) = es.first() {
